@@ -16,7 +16,22 @@ CHECKS = {
     ),
 }
 
-NOT_BUILT = "check not built yet in this session (design in DESIGN.md section 5); not claimed until its monitor exists and is quiet on the unchanged tree"
+CHECKS["C17"] = (
+    "exploration",
+    "runtime law monitor over real compare/sort executions: antisymmetry, transitivity, zero<=>equal, nil-lowest, (ns,name) order, reference value order; sort = ordered stable permutation, input-order independent",
+    "Held on all ordered pairs and triples of a 12-14 element universe per comparable family (exhaustive for those universes), all permutations of 6 (thorough 7) distinct elements per family through sort/sort-by with default, boolean and 3-way comparators, and random lists with ties for stability. Exploration: the families are unbounded, only the enumerated universes are exhaustive.",
+    "Trusted: Fraction/str ordering of CPython as reference for numbers/strings; relative order of namespaced vs plain idents and the particular vector order are not prescribed (laws only).",
+    "DESIGN.md section 5 C17",
+)
+CHECKS["C05"] = (
+    "exploration",
+    "runtime law monitor: =, hash, get/contains? and wrapped comparisons on every pair/triple of a recipe-built universe, judged against a structural model derived from the construction recipe",
+    "Held (apart from the recorded bool/number conflation finding) on all ordered pairs of a ~95-value universe covering every representation class, triples over a core, several hash seeds, and random nested values with independently represented twins. Exploration with exhaustive pair coverage of the stated universe.",
+    "Trusted: the harness' structural model (numbers by exact value, sequentials by order, maps/sets by entries); record-vs-map equality only checked for symmetry/hash law; NaN-containing values excluded from reflexivity.",
+    "DESIGN.md section 5 C05",
+)
+
+NOT_BUILT ="check not built yet in this session (design in DESIGN.md section 5); not claimed until its monitor exists and is quiet on the unchanged tree"
 
 
 def main():
